@@ -11,6 +11,7 @@ LAYOUT = [
         "beta_test.go": ["TestBeta", "TestB", "Test_x"],
         "gamma_test.go": ["TestGamma", "TestGamma2"],
         "dotted.v2_test.go": ["TestDotted"],
+        "api.snapshot_test.go": ["TestSnapApi"],
     }),
     ("sub", "sub", {"sub_test.go": ["TestSub", "TestSubAlpha"]}),
     ("sub/deep/er", "er", {"er_test.go": ["TestEr", "TestAlpha"]}),
